@@ -603,3 +603,167 @@ def run_sessions(prop, res, model_ok, sessions, T, oracle, canary=True, shard=40
         bad = [i for i in bad if i != len(cases) - 1]
     for i in bad:
         res.disagreements.append(payloads[i])
+
+
+# ------------------------------------------------------------------ nested vocabulary (added for C05)
+# Configurations with nesting in nesting (author -> book -> format) and the SAME child names under different
+# nested parents (author.address / publisher.address, author.book / top-level book), in several spellings, and
+# trees / sessions written for them.  Additions only: nothing above depends on this section.
+
+NESTED_VOCAB = {
+    "author": {"name": None, "book": {"format": {"type": None}, "title": None},
+               "address": {"city": None, "zip": None}},
+    "publisher": {"name": None, "address": {"city": None, "zip": None}},
+    "book": {"title": None},          # a plain (object) field with the name of a nested one
+    "title": None,
+}
+
+_NV_DICT = {"author": {"name": None, "book": {"format": ["type"], "title": None}, "address": ["city", "zip"]},
+            "publisher": {"name": None, "address": ["city", "zip"]}}
+_NV_LEAVES = ["author.name", "author.book.format.type", "author.book.title", "author.address.city",
+              "author.address.zip", "publisher.name", "publisher.address.city", "publisher.address.zip"]
+
+NESTED_VOCAB_CONFIGS = [
+    {"nested_fields": _NV_DICT},
+    {"nested_fields": _NV_DICT, "default_operator": "must"},
+    {"nested_fields": _NV_LEAVES},                                                 # list of dotted leaf paths
+    {"nested_fields": {"author": {"name": {}, "book.title": None, "book.format.type": None,      # dotted keys
+                                  "address.city": None, "address.zip": None},
+                       "publisher": ["name", "address.city", "address.zip"]}, "default_operator": "must"},
+    {"nested_fields": _NV_DICT, "object_fields": ["book.title"], "sub_fields": [],
+     "not_analyzed_fields": ["author.address.zip", "publisher.address.zip"]},
+]
+
+NESTED_VOCAB_QUERIES = [
+    # chains, dotted names, the same relative name under two parents (history matters: one builder, many calls)
+    'author:(address:(city:paris))', 'publisher:(address:(city:rome))', 'author:(address:(city:rome))',
+    'author.address.city:paris', 'publisher.address.city:rome', 'address.city:x',
+    'book:(title:spam)', 'author:(book:(title:spam) name:hugo)', 'book.title:spam', 'author.book.title:spam',
+    'author:(book:(format:(type:pdf)))', 'author.book.format.type:pdf', 'author:(book.format.type:pdf)',
+    'author:(book:(format.type:pdf))', 'author.book:(format:(type:pdf) AND title:x)',
+    # field groups whose operands are ALL deeper-nested fields
+    'author:(book:(title:spam) AND book:(title:eggs))', 'author:(NOT book:(title:spam))',
+    'author:(-book.title:spam)', 'author:(book.title:spam book.format.type:pdf)',
+    'author:(book:(title:spam) OR address:(city:paris))', 'author:(address.city:paris AND book.title:spam)',
+    'author:(book:(format:(type:pdf) AND format:(type:epub)))', 'author:(book:(NOT format:(type:pdf)))',
+    'author:(+book.title:spam -address.city:paris)', 'author:((book.title:spam AND address.city:paris))',
+    'author:(NOT (book.title:spam OR address.zip:75))', 'author.book:(format.type:pdf AND format.type:epub)',
+    # nested and plain operands mixed; the same relative name under different parents in ONE tree
+    'author:(name:hugo AND book:(title:spam))', 'author:(address:(city:paris AND zip:75))',
+    'author:(address:(city:paris)) AND publisher:(address:(city:paris))',
+    'author:(address.city:paris) OR publisher:(address.city:paris) OR title:x',
+    'book:(title:spam) AND author:(book:(title:spam))', 'author:(book:(title:spam)) book:(title:eggs)',
+    'title:x AND NOT author:(book:(title:spam) AND address:(city:paris))',
+    'publisher:(name:x AND address:(city:rome)) AND author:(name:x AND address:(city:rome))',
+]
+
+NV_WORDS = ["x", "y", "paris", "rome", "spam", "w*", "75"]
+
+
+class NestedVocabGen:
+    """supported trees over NESTED_VOCAB: every term sits on a leaf field; chains of SearchFields, dotted names,
+    field groups over and / or / implicit / boolean operations, not / + / -, the operands being fields of the
+    current level (plain ones and deeper-nested ones, or deeper-nested ones ONLY)"""
+
+    def __init__(self, r, T, names=0.05):
+        self.r, self.T, self.names = r, T, names
+
+    def fin(self, node):
+        if self.r.random() < self.names:
+            setattr(node, "_luqum_name", self.r.choice(NAMES))
+        return node
+
+    def term(self):
+        T, r = self.T, self.r
+        x = r.random()
+        if x < 0.75:
+            return self.fin(T.Word(r.choice(NV_WORDS)))
+        if x < 0.85:
+            return self.fin(T.Phrase(r.choice(['"a b"', '"x"'])))
+        if x < 0.93:
+            return self.fin(T.Fuzzy(T.Word(r.choice(NV_WORDS[:5])), r.choice([1, 2])))
+        return self.fin(T.Range(T.Word("1"), T.Word(r.choice(["5", "*"])), r.random() < 0.5, True))
+
+    def paths(self, voc, maxlen=3):
+        """(relative name components, sub-vocabulary or None) reachable from voc in 1..maxlen steps"""
+        out = []
+
+        def go(v, acc):
+            for k, sub in v.items():
+                out.append((acc + [k], sub))
+                if sub and len(acc) + 1 < maxlen:
+                    go(sub, acc + [k])
+        go(voc, [])
+        return out
+
+    def field(self, voc, depth, only_containers=False):
+        """a SearchField on a (possibly dotted) name below voc, with a sub-query for the place it leads to"""
+        T, r = self.T, self.r
+        cands = self.paths(voc)
+        if only_containers:
+            cands = [c for c in cands if c[1]] or cands
+        comps, sub = r.choice(cands)
+        if sub is None:
+            e = self.term()
+        else:
+            e = self.expr(sub, depth - 1)
+            if not isinstance(e, T.SearchField) or r.random() < 0.7:
+                e = self.fin(T.FieldGroup(e))
+        return self.fin(T.SearchField(".".join(comps), e))
+
+    def expr(self, voc, depth, root=False):
+        T, r = self.T, self.r
+        has_containers = any(v for v in voc.values())
+        if depth <= 0:
+            return self.field(voc, 0)
+        kind = r.choice(["field", "field", "op", "op", "op_nested", "not", "prohibit", "plus", "group", "boost"])
+        if kind == "field":
+            return self.field(voc, depth)
+        if kind in ("op", "op_nested"):
+            k = r.choice([T.AndOperation, T.OrOperation, T.UnknownOperation, T.AndOperation, T.UnknownOperation,
+                          T.BoolOperation])
+            nested_only = kind == "op_nested" and has_containers
+            ops = []
+            for _ in range(r.randrange(2, 4)):
+                x = r.random()
+                if nested_only or x < 0.6:
+                    o = self.field(voc, depth - 1, only_containers=nested_only)
+                elif x < 0.8:
+                    o = self.fin(T.Group(self.expr(voc, depth - 1)))
+                elif x < 0.9:
+                    o = self.fin(r.choice([T.Not, T.Prohibit, T.Plus])(self.field(voc, depth - 1, nested_only)))
+                else:
+                    o = self.field(voc, 0)
+                if k is T.BoolOperation and r.random() < 0.5:
+                    o = self.fin(r.choice([T.Plus, T.Prohibit])(o))
+                ops.append(o)
+            return self.fin(k(*ops))
+        if kind in ("not", "prohibit", "plus"):
+            k = {"not": T.Not, "prohibit": T.Prohibit, "plus": T.Plus}[kind]
+            return self.fin(k(self.field(voc, depth - 1, only_containers=has_containers and r.random() < 0.6)))
+        if kind == "group":
+            return self.fin(T.Group(self.expr(voc, depth - 1)))
+        return self.fin(T.Boost(self.fin(T.Group(self.expr(voc, depth - 1))), r.choice([2, "0.5"])))
+
+    def tree(self, depth):
+        return self.expr(NESTED_VOCAB, depth, root=True)
+
+
+def nested_vocab_sessions(r, T, n_sessions):
+    """[(cfg, [tree, ...], kind)]: ONE builder instance translates each list in a row (run_sessions also asks a
+    fresh builder for every tree).  First the parsed corpus under every configuration, in the written order and
+    in a shuffled one (what an earlier call did to the instance must not matter), then random sessions"""
+    from luqum.parser import parser
+    g = NestedVocabGen(r, T)
+    sessions = []
+    for cfg in NESTED_VOCAB_CONFIGS:
+        trees = [parser.parse(q) for q in NESTED_VOCAB_QUERIES]
+        sessions.append((cfg, trees, "nested-corpus"))
+        again = [parser.parse(q) for q in NESTED_VOCAB_QUERIES]
+        r.shuffle(again)
+        sessions.append((cfg, again, "nested-corpus-shuffled"))
+    for _ in range(n_sessions):
+        cfg = r.choice(NESTED_VOCAB_CONFIGS)
+        trees = [g.tree(r.randrange(1, 4)) for _ in range(r.randrange(2, 9))]
+        sessions.append((cfg, trees, "nested-random"))
+    return sessions
